@@ -1246,7 +1246,10 @@ def parse_deftype(toks):
 
     letters = set()
     for start, end in ranges:
+        # the two ends of a range can be written in different cases
+        start = start.lower()
         if end:
+            end = end.lower()
             letters.update(
                 chr(c) for c in range(ord(start), ord(end) + 1))
         else:
